@@ -1,17 +1,15 @@
 // Harnesses for spl_frontend/src/parser.rs (property C01, part A4: the Reference frame bookkeeping
-// and expect()'s retry, through the REAL `impl Parser for Reference<T>` and the real
-// utility::{expect, info, affected}, instantiated with the harness node `Leaf` (";"+), see
+// of the REAL `impl Parser for Reference<T>`, instantiated with the harness node `Leaf` (";"*), see
 // harness/parser_utility.rs.  Appended as `#[cfg(kani)] mod __verif { use super::*; ... }`.
 //
-// Decided:
-//  A4   Reference::<Leaf>::parse(this, input): on success the frame of the caller is restored
-//       (reference_pos, inc_references) and `offset` is the distance, in the NEW stream, between the
-//       node and the enclosing Reference; on failure with an old node the frame is restored too.
-//       (On failure WITHOUT an old node the implementation pops the caller's entry; this was examined
-//       natively and is not, by itself, an observable defect - DESIGN §5 - so it is not asserted.)
-//  A4b  expect(Some(old), Reference::parse) == expect(None, Reference::parse) on the same stream
-//       (same presence, same node range and offset, same rest position, same diagnostics) for every
-//       reachable pre-state: the retry-without-old-node path makes reuse invisible.
+// Decided (registered): A4 for the configuration WITHOUT an old node (CONFIGS[4]):
+//   Reference::<Leaf>::parse(None, input): the frame of the caller is restored (reference_pos,
+//   inc_references), `offset` is the distance, in the NEW stream, between the node and the enclosing
+//   Reference, the node starts at 0 of its own frame, the stream advanced by the node's length.
+// Tried, measured, NOT registered (see the note further down and DESIGN 1.5): the four
+// configurations WITH an old node and the expect() equivalence (A4b).
+// (On failure WITHOUT an old node the implementation pops the caller's entry; this was examined
+// natively and is not, by itself, an observable defect - DESIGN §3/C01 - so it is not asserted.)
 
 use crate::parser::utility::__verif::{build_tokens, Leaf, K_EOF, K_OTHER, K_SEMIC, M};
 use crate::tokens::TokenChange;
